@@ -226,6 +226,7 @@ class Stack:
         self.subscribed = set()
         self.findsub = set()
         self.conn_lost = False
+        self.disc_started = False
         hooks = cfg.get("wrap")
         if hooks:
             self._wrap(hooks)
@@ -262,10 +263,12 @@ class Stack:
         prot = self.prot
         d = prot.discovery
         if f == "start":
-            if prot.announcer.started or prot.subscriber.alive or self.conn_lost:
+            if prot.announcer.started or prot.subscriber.alive or self.conn_lost or self.disc_started:
                 return "skip"
+            self.disc_started = True
             prot.start()
         elif f == "stop":
+            self.disc_started = False
             prot.stop()
         elif f == "conn_lost":
             if self.conn_lost:
@@ -338,8 +341,12 @@ class Stack:
         elif f == "ann_stop":
             prot.announcer.stop()
         elif f == "disc_start":
+            if self.disc_started:
+                return "skip"  # start() on a running discovery is API misuse, not a property subject
+            self.disc_started = True
             d.start()
         elif f == "disc_stop":
+            self.disc_started = False
             d.stop()
         elif f == "sub_start":
             prot.subscriber.start()
